@@ -465,7 +465,7 @@ class Run:
         """one PRNG per case, derived from the run seed: a replay regenerates exactly the case it names"""
         return random.Random(f"{self.ctx.seed}:{self.ctx.tier}:{section}:{'s' if self.ctx.searching else 'r'}:{idx}")
 
-    LIMITED = ("DataClassPayload:decode-before-first-instance", "DataClassPayload:tuple-set-field-decodes-as-list")
+    LIMITED = ("DataClassPayload:decode-before-first-instance",)
 
     def fail_limited(self, signature, what, rep):
         """oracle failure; signatures that are recorded known findings are reported a few times per run and counted
